@@ -209,8 +209,10 @@ def _c13_remote(o, driver, rng):
             x.pop("api", None)
         sc.pop("debug", None)
         sc["fault"] = {"sim": rng.choice(tb), "n": 0, "kind": kinds[k % len(kinds)]}
-        k += 1
         outcome, obs = dt.run_remote(sc)
+        if outcome.startswith("failed ScenarioError"):
+            continue        # an invalid scenario (unresolved cycle, rejected connection): the run never starts, nothing to judge
+        k += 1
         steps = obs.get(sc["fault"]["sim"], [])
         if not outcome.startswith("failed SimulationError") or len(steps) != 1:
             o.violations.append({"law": "a malformed next-step reply of a remote simulator aborts run() with a SimulationError and the simulator is not stepped again",
